@@ -24,6 +24,93 @@ def capacities(F):
     return out
 
 
+BOUND = 65534       # in-bounds coordinates: the logical size is at most 65535 (C09)
+
+
+def vec_len(ex, v):
+    """length polynomial of a heapless::Vec value (length-only model of summaries.py)"""
+    from values import ITE
+    if isinstance(v, Agg) and v.name == HV and v.fields and isinstance(v.fields[0], IntV):
+        return v.fields[0].poly()
+    if isinstance(v, SymV):
+        return sym_int("len(%s)" % v.name, ex.pbits, False)
+    if isinstance(v, ITE):
+        a, b = vec_len(ex, v.a), vec_len(ex, v.b)
+        return None if a is None or b is None else v.c * a + (ONE - v.c) * b
+    return None
+
+
+def check_row_merge(R, F, cfg, cap):
+    """the row accumulator, one call of next() on an in-bounds pixel stream: a row is handed on while pixels keep
+    coming only if the pixel just pulled is NOT the right-hand neighbour of the row's last pixel, or the row is full"""
+    from poly import eq0, ge0
+    import summaries
+    its = [b for b in F.trait_impl_method(TR.ITER, "next") if b["container"]["self_ty"].get("def", "").startswith("mipidsi::batch::")]
+    rows = []
+    for b in its:
+        impl = [i for i in F.raw["impls"] if i["id"] == b["container"]["impl"]]
+        item = [i.get("ty") for i in (impl[0]["items"] if impl else []) if i.get("name") == "Item"]
+        ad = F.adts.get(item[0]["def"]) if item and item[0] and item[0].get("k") == "adt" else None
+        names = [f["name"] for f in ad["variants"][0]["fields"]] if ad else []
+        if "x_right" in names and "y" in names and "x_left" in names:
+            rows.append((b, ad, names))
+    if len(rows) != 1 or cap is None:
+        R.undecided("C20", "%s|row-iterator-anchor" % cfg, "the row accumulator (an Iterator in batch.rs whose Item has x_left, x_right, y) "
+                    "was not found exactly once (%d)" % len(rows))
+        return
+    rec, ad, names = rows[0]
+    ex = R.executor(F)
+
+    def in_bounds(trait, name, rn):
+        if trait == TR.ITER and name == "next":
+            x, y = sym_int(rn + "@Some.0.0.x", 32, True), sym_int(rn + "@Some.0.0.y", 32, True)
+            return [x, y, BOUND - x, BOUND - y]
+    ex.result_facts = in_bounds
+    ex.templates = [lambda v: BOUND - v]
+    self_adt = rec["container"]["self_ty"]["def"]
+    snames = [f["name"] for f in F.adts[self_adt]["variants"][0]["fields"]]
+    u16s = [f["name"] for f in F.adts[self_adt]["variants"][0]["fields"] if f["ty"].get("k") == "int"]
+    assume = [BOUND - sym_int("*self.%s" % n, 16, False) for n in u16s]
+    tag = "%s|%s::next" % (cfg, self_adt.split("::")[-1])
+    try:
+        res = R.run_entry(ex, rec, assume=assume)
+    except E.Undecided as e:
+        R.undecided("C20", "%s|undecided" % tag, str(e))
+        return
+    nflush = 0
+    for o in res.outcomes:
+        if o.kind == "panic":
+            continue        # C02
+        v = o.value
+        if not (isinstance(v, Agg) and v.variant == 1 and isinstance(v.fields[0], Agg) and v.fields[0].name == ad["id"]):
+            continue
+        row = {n: v.fields[0].fields[i] for i, n in enumerate(names)}
+        # the pixel pulled in the returning iteration (if the stream had ended there is nothing to merge)
+        nexts = [a_["ev"] for a_ in TR.annotate(o.state.trace, res.loops) if TR.classify(a_["ev"]).cls == "NEXT"]
+        if not nexts or not isinstance(nexts[-1].ret, SymV):
+            continue
+        rn = nexts[-1].ret.name
+        f = o.state.facts
+        some = f.simplify(Poly.atom(("var", rn, 1, 2))).const_value()
+        if some != 1:
+            continue
+        nflush += 1
+        x, y = sym_int(rn + "@Some.0.0.x", 32, True), sym_int(rn + "@Some.0.0.y", 32, True)
+        f2 = f.copy()
+        feasible = f2.assume(eq0(x - row["x_right"].poly() - 1, f2), 1) and f2.assume(eq0(y - row["y"].poly(), f2), 1)
+        if feasible:
+            vf = [f_["name"] for f_ in ad["variants"][0]["fields"] if f_["ty"].get("k") == "adt" and f_["ty"].get("def") == HV]
+            ln = vec_len(ex, row[vf[0]]) if len(vf) == 1 else None
+            if ln is None:
+                R.undecided("C20", "%s|row-length" % tag, "length of the flushed row not readable from %r" % (row,))
+                continue
+            feasible = f2.assume(ge0(Poly.const(cap - 1) - f2.simplify(ln), f2), 1)
+        R.ob("C20b-flush-only-when-not-mergeable", "%s|flush%d" % (tag, nflush), not feasible,
+             "next() hands on a row although the pixel just pulled is its right-hand neighbour on the same line and the row is not "
+             "full: adjacent pixels are not merged into one burst", sample={"path": [("%r" % p_)[:120] for p_, _ in f.decisions()][:6]})
+    R.floor("%s flush-with-pixel paths" % tag, nflush, 1)
+
+
 def run(R):
     R.trusted = ["rustc nightly MIR construction", "AIM interpreter", "C08 (framing), C06 (SPI progress and staging)",
                  "heapless::Vec<T, N> holds at most N items (capacity is a type argument)"]
@@ -81,6 +168,7 @@ def run(R):
             R.ob("C20b-draw-iter-uses-blocks", "%s|draw_iter" % cfg, not singles and bool(srcs),
                  "with `batch`, draw_iter sends single-pixel bursts (%s): it bypasses the row/block pipeline" % singles[:2],
                  sample={"burst_sources": sorted(srcs)})
+            check_row_merge(R, F, cfg, min(rowc) if rowc else None)
         # (c) SPI: no write in the per-pixel staging loop
         for mname in ("send_pixels", "send_repeated_pixel"):
             rec = C.one(F.trait_impl_method(C.IFACE, mname, self_adt=SPIIF), "SpiInterface::" + mname)
